@@ -131,7 +131,15 @@ Proof.
   intros _. rewrite assoc_set_same. discriminate.
 Qed.
 
-(* the residual premise, per name and expression: evaluating e leaves the GLOBAL y as it is *)
+(* ---------------------------------------------------------------- the residual premise *)
+(* an evaluation that leaves the GLOBAL variables named in P as they are *)
+Definition Keeps (P : list str) : evrel :=
+  fun e loc w o w1 => forall y, In y P -> env_get y (w_globals w1) = env_get y (w_globals w).
+
+(* the globals that the expressions of a run must leave alone: arrayLength and arrayGet; at top level also the bookkeeping
+   variables of the tree's loops (inside a function they are locals of the frame) *)
+Definition protected (fs : bool) (s : unistmt) : list str := ARRLEN :: ARRGET :: (if fs then [] else utemps s).
+
 Section Crit.
 Variable cfg : config.
 Variable lib : caller -> str -> list value -> world -> lres * world.
@@ -139,171 +147,156 @@ Variable url_rel : str -> str -> str.
 Variable lint_lines : script -> list str.
 Variable um : umode.
 Variables len_msg get_msg : str.
+Variable P : list str.
 
 Notation Ev := (C01.Ev cfg lib url_rel lint_lines um).
-Notation XExec := (XExec cfg lib url_rel lint_lines um len_msg get_msg).
-Notation XLoop := (XLoop cfg lib url_rel lint_lines um len_msg get_msg).
+Notation EvK := (EvQ cfg lib url_rel lint_lines um (Keeps P)).
+Notation XExec := (XExec cfg len_msg get_msg).
+Notation XLoop := (XLoop cfg len_msg get_msg).
 Notation IterX := (IterX cfg get_msg).
 Notation logst := (logst cfg).
-
-Definition EvKeep (y : str) (e : expr) : Prop :=
-  forall loc w o w1, Ev e loc w o w1 -> env_get y (w_globals w1) = env_get y (w_globals w).
-
-Definition Res (fs : bool) (s : unistmt) : Prop :=
-  forall e, In e (uexprs s) ->
-    EvKeep ARRLEN e /\ EvKeep ARRGET e /\ (fs = false -> forall y, In y (utemps s) -> EvKeep y e).
-
-Lemma Res_sub fs s s' : incl (uexprs s') (uexprs s) -> incl (utemps s') (utemps s) -> Res fs s -> Res fs s'.
-Proof.
-  intros H1 H2 HR e He. destruct (HR e (H1 _ He)) as (A & B & C). split; [exact A|split; [exact B|]].
-  intros Hf y Hy. exact (C Hf y (H2 _ Hy)).
-Qed.
 
 Lemma flook_logst y name msg st : flook y (logst name msg st) = flook y st.
 Proof. unfold flook, C01side.logst, lookup_fn. cbn [fst snd]. rewrite globals_logw. reflexivity. Qed.
 
-Lemma flook_ev y e loc w o w1 : Ev e loc w o w1 -> lbound y (loc, w) \/ EvKeep y e -> flook y (loc, w1) = flook y (loc, w).
+Lemma flook_ev y e loc w o w1 : EvK e loc w o w1 -> lbound y (loc, w) \/ In y P -> flook y (loc, w1) = flook y (loc, w).
 Proof.
-  intros He [Hl|Hk]; unfold flook, lookup_fn; cbn [fst snd].
+  intros [_ Hk] [Hl|Hp]; unfold flook, lookup_fn; cbn [fst snd].
   - destruct loc as [l|]; [|contradiction]. unfold lbound in Hl. cbn [fst] in Hl. destruct (env_get y l); [reflexivity|congruence].
-  - rewrite (Hk _ _ _ _ He). reflexivity.
+  - rewrite (Hk y Hp). reflexivity.
 Qed.
 
 (* ---------------------------------------------------------------- the frame property *)
 (* from st to st': same kind of scope; local bindings only grow; a name outside A resolves to the same binding, provided it is a
-   local or the expressions of E leave that global alone *)
-Definition step_ok (A : list str) (E : list expr) (st st' : sstate) : Prop :=
+   local or one of the protected globals *)
+Definition step_ok (A : list str) (st st' : sstate) : Prop :=
   fscope st' = fscope st /\ (forall y, lbound y st -> lbound y st') /\
-  (forall y, ~ In y A -> (lbound y st \/ forall e, In e E -> EvKeep y e) -> flook y st' = flook y st).
+  (forall y, ~ In y A -> lbound y st \/ In y P -> flook y st' = flook y st).
 
-Lemma step_refl A E st : step_ok A E st st.
+Lemma step_refl A st : step_ok A st st.
 Proof. repeat split; auto. Qed.
-Lemma step_trans A E st st1 st2 : step_ok A E st st1 -> step_ok A E st1 st2 -> step_ok A E st st2.
+Lemma step_trans A st st1 st2 : step_ok A st st1 -> step_ok A st1 st2 -> step_ok A st st2.
 Proof.
   intros (F1 & L1 & K1) (F2 & L2 & K2). split; [congruence|split; [auto|]].
   intros y Hy Hk. rewrite K2; [apply K1; assumption|exact Hy|]. destruct Hk as [Hl|Hk]; [left; auto|right; exact Hk].
 Qed.
-Lemma step_weaken A E A' E' st st' : incl A A' -> incl E E' -> step_ok A E st st' -> step_ok A' E' st st'.
+Lemma step_weaken A A' st st' : incl A A' -> step_ok A st st' -> step_ok A' st st'.
 Proof.
-  intros HA HE (F & L & K). split; [exact F|split; [exact L|]]. intros y Hy Hk. apply K.
-  - intros Hin. apply Hy. apply HA. exact Hin.
-  - destruct Hk as [Hl|Hk]; [left; exact Hl|right; intros e He; apply Hk; apply HE; exact He].
+  intros HA (F & L & K). split; [exact F|split; [exact L|]]. intros y Hy Hk. apply K; [|exact Hk].
+  intros Hin. apply Hy. apply HA. exact Hin.
 Qed.
-Lemma step_assign A E x v st : In x A -> step_ok A E st (assign' x v st).
+Lemma step_assign A x v st : In x A -> step_ok A st (assign' x v st).
 Proof.
   intros Hx. split; [apply fscope_assign|split; [intros y; apply lbound_assign|]].
   intros y Hy _. apply flook_assign_other. intros ->. exact (Hy Hx).
 Qed.
-Lemma step_logst A E name msg st : step_ok A E st (logst name msg st).
+Lemma step_logst A name msg st : step_ok A st (logst name msg st).
 Proof. split; [reflexivity|split; [intros y H; exact H|]]. intros y _ _. apply flook_logst. Qed.
-Lemma step_ev A E e loc w o w1 : Ev e loc w o w1 -> In e E -> step_ok A E (loc, w) (loc, w1).
-Proof.
-  intros He Hin. split; [reflexivity|split; [intros y H; exact H|]]. intros y _ Hk. eapply flook_ev; [exact He|].
-  destruct Hk as [Hl|Hk]; [left; exact Hl|right; apply Hk; exact Hin].
-Qed.
-Lemma step_iter A E arr i st v st_g : IterX arr i st v st_g -> step_ok A E st st_g.
+Lemma step_ev A e loc w o w1 : EvK e loc w o w1 -> step_ok A (loc, w) (loc, w1).
+Proof. intros He. split; [reflexivity|split; [intros y H; exact H|]]. intros y _ Hk. eapply flook_ev; eassumption. Qed.
+Lemma step_iter A arr i st v st_g : IterX arr i st v st_g -> step_ok A st st_g.
 Proof. intros [elems v' _ _|elems _ _]; [apply step_refl|apply step_logst]. Qed.
 
 Ltac incl_tac := let z := fresh in let Hz := fresh in
   intros z Hz; cbn [assigned uexprs utemps In app] in *; rewrite ?in_app_iff in *; cbn [In]; tauto.
 
-Definition FR (s : unistmt) (st : sstate) (o : sout) (st' : sstate) : Prop := step_ok (assigned s) (uexprs s) st st'.
+Definition FR (s : unistmt) (st : sstate) (o : sout) (st' : sstate) : Prop := step_ok (assigned s) st st'.
 Definition FRL (vals len idx x : str) (body : unistmt) (arr m i : nat) (st : sstate) (o : sout) (st' : sstate) : Prop :=
-  step_ok (idx :: x :: assigned body) (uexprs body) st st'.
+  step_ok (idx :: x :: assigned body) st st'.
 
 Lemma frame_both chk :
-  (forall s st o st', XExec chk s st o st' -> FR s st o st') /\
-  (forall vals len idx x body arr m i st o st', XLoop chk vals len idx x body arr m i st o st' -> FRL vals len idx x body arr m i st o st').
+  (forall s st o st', XExec EvK chk s st o st' -> FR s st o st') /\
+  (forall vals len idx x body arr m i st o st', XLoop EvK chk vals len idx x body arr m i st o st' -> FRL vals len idx x body arr m i st o st').
 Proof.
   apply X_both; unfold FR, FRL; intros;
-    repeat match goal with H : C01.Ev _ _ _ _ _ ?e ?loc ?w ?o ?w1 |- _ =>
-      let H' := fresh "Hev" in pose proof (fun A E => step_ev A E e loc w o w1 H) as H'; clear H end;
+    repeat match goal with H : C01side.EvQ _ _ _ _ _ _ ?e ?loc ?w ?o ?w1 |- _ =>
+      let H' := fresh "Hev" in pose proof (fun A => step_ev A e loc w o w1 H) as H'; clear H end;
     repeat match goal with H : C01side.IterX _ _ _ _ ?st ?v ?stg |- _ =>
-      let H' := fresh "Hit" in pose proof (fun A E => step_iter A E _ _ st v stg H) as H'; clear H end.
+      let H' := fresh "Hit" in pose proof (fun A => step_iter A _ _ st v stg H) as H'; clear H end.
   - apply step_refl.
-  - eapply step_trans; (eapply step_weaken; [| |eassumption]; incl_tac).
-  - eapply step_weaken; [| |eassumption]; incl_tac.
-  - eapply step_trans; [apply Hev; cbn; auto|]. change (assign x v loc w1) with (assign' x v (loc, w1)). apply step_assign. cbn; auto.
-  - apply Hev. cbn; auto.
-  - apply Hev. cbn; auto.
-  - apply Hev. cbn; auto.
-  - apply Hev. cbn; auto.
+  - eapply step_trans; (eapply step_weaken; [|eassumption]; incl_tac).
+  - eapply step_weaken; [|eassumption]; incl_tac.
+  - eapply step_trans; [apply Hev|]. change (assign x v loc w1) with (assign' x v (loc, w1)). apply step_assign. cbn; auto.
+  - apply Hev.
+  - apply Hev.
+  - apply Hev.
+  - apply Hev.
   - apply step_refl.
   - apply step_refl.
   - apply step_refl.
-  - eapply step_trans; [apply Hev; cbn; auto|]. eapply step_weaken; [| |eassumption]; incl_tac.
-  - eapply step_trans; [apply Hev; cbn; auto|]. eapply step_weaken; [| |eassumption]; incl_tac.
-  - apply Hev. cbn; auto.
+  - eapply step_trans; [apply Hev|]. eapply step_weaken; [|eassumption]; incl_tac.
+  - eapply step_trans; [apply Hev|]. eapply step_weaken; [|eassumption]; incl_tac.
+  - apply Hev.
   - assumption.
-  - apply Hev. cbn; auto.
-  - apply Hev. cbn; auto.
-  - eapply step_trans; [apply Hev; cbn; auto|]. eapply step_trans; [|eassumption]. eapply step_weaken; [| |eassumption]; incl_tac.
-  - eapply step_trans; [apply Hev; cbn; auto|]. eapply step_weaken; [| |eassumption]; incl_tac.
-  - eapply step_trans; [apply Hev; cbn; auto|]. eapply step_weaken; [| |eassumption]; incl_tac.
-  - apply Hev. cbn; auto.
+  - apply Hev.
+  - apply Hev.
+  - eapply step_trans; [apply Hev|]. eapply step_trans; [|eassumption]. eapply step_weaken; [|eassumption]; incl_tac.
+  - eapply step_trans; [apply Hev|]. eapply step_weaken; [|eassumption]; incl_tac.
+  - eapply step_trans; [apply Hev|]. eapply step_weaken; [|eassumption]; incl_tac.
+  - apply Hev.
   - (* not an array *)
-    eapply step_trans; [apply Hev; cbn; auto|]. eapply step_trans; [apply step_assign with (x := vals); cbn; auto|].
+    eapply step_trans; [apply Hev|]. eapply step_trans; [apply step_assign with (x := vals); cbn; auto|].
     eapply step_trans; [apply step_logst|]. apply step_assign. cbn; auto.
-  - eapply step_trans; [apply Hev; cbn; auto|]. eapply step_trans; [apply step_assign with (x := vals); cbn; auto|].
+  - eapply step_trans; [apply Hev|]. eapply step_trans; [apply step_assign with (x := vals); cbn; auto|].
     apply step_assign. cbn; auto.
-  - eapply step_trans; [apply Hev; cbn; auto|]. eapply step_trans; [apply step_assign with (x := vals); cbn; auto|].
+  - eapply step_trans; [apply Hev|]. eapply step_trans; [apply step_assign with (x := vals); cbn; auto|].
     eapply step_trans; [apply step_assign with (x := len); cbn; auto|]. eapply step_trans; [apply step_assign with (x := idx); cbn; auto|].
-    eapply step_weaken; [| |eassumption]; incl_tac.
+    eapply step_weaken; [|eassumption]; incl_tac.
   - (* loop: stop *)
     eapply step_trans; [apply Hit|]. eapply step_trans; [apply step_assign with (x := x); cbn; auto|].
-    eapply step_weaken; [| |eassumption]; incl_tac.
+    eapply step_weaken; [|eassumption]; incl_tac.
   - eapply step_trans; [apply Hit|]. eapply step_trans; [apply step_assign with (x := x); cbn; auto|].
-    eapply step_weaken; [| |eassumption]; incl_tac.
+    eapply step_weaken; [|eassumption]; incl_tac.
   - eapply step_trans; [apply Hit|]. eapply step_trans; [apply step_assign with (x := x); cbn; auto|].
-    eapply step_trans; [eapply step_weaken; [| |eassumption]; incl_tac|].
+    eapply step_trans; [eapply step_weaken; [|eassumption]; incl_tac|].
     eapply step_trans; [apply step_assign with (x := idx); cbn; auto|]. eassumption.
   - eapply step_trans; [apply Hit|]. eapply step_trans; [apply step_assign with (x := x); cbn; auto|].
-    eapply step_trans; [eapply step_weaken; [| |eassumption]; incl_tac|].
+    eapply step_trans; [eapply step_weaken; [|eassumption]; incl_tac|].
     apply step_assign. cbn; auto.
 Qed.
 
-Lemma frame_exec chk s st o st' : XExec chk s st o st' -> step_ok (assigned s) (uexprs s) st st'.
+Lemma frame_exec chk s st o st' : XExec EvK chk s st o st' -> step_ok (assigned s) st st'.
 Proof. apply frame_both. Qed.
 
 (* ---------------------------------------------------------------- the side conditions hold along every derivation *)
 (* the static criterion for the tree and the dynamic invariant at the current state *)
 Definition OK (s : unistmt) (st : sstate) : Prop :=
-  no_temp_assign s = true /\ no_shadow s = true /\ LibOK st /\ Res (fscope st) s.
+  no_temp_assign s = true /\ no_shadow s = true /\ LibOK st /\ incl (protected (fscope st) s) P.
 
-(* the bookkeeping names of a loop are locals of the frame, or globals that the expressions of E leave alone *)
-Definition TK (vals len idx : str) (E : list expr) (st : sstate) : Prop :=
-  forall y, In y [vals; len; idx] -> lbound y st \/ forall e, In e E -> EvKeep y e.
+(* the bookkeeping names of a loop are locals of the frame, or protected globals *)
+Definition TK (vals len idx : str) (st : sstate) : Prop := forall y, In y [vals; len; idx] -> lbound y st \/ In y P.
 
-Lemma libok_step A E st st' : step_ok A E st st' -> ~ In ARRLEN A -> ~ In ARRGET A ->
-  (forall e, In e E -> EvKeep ARRLEN e /\ EvKeep ARRGET e) -> LibOK st -> LibOK st'.
+Lemma libok_step A st st' : step_ok A st st' -> ~ In ARRLEN A -> ~ In ARRGET A -> In ARRLEN P -> In ARRGET P -> LibOK st -> LibOK st'.
 Proof.
-  intros (_ & _ & K) H1 H2 HE [L1 L2]. split; unfold is_lib.
-  - change (flook ARRLEN st' = Some (VFun (FLib ARRLEN))). rewrite K; [exact L1|exact H1|right; intros e He; apply HE; exact He].
-  - change (flook ARRGET st' = Some (VFun (FLib ARRGET))). rewrite K; [exact L2|exact H2|right; intros e He; apply HE; exact He].
+  intros (_ & _ & K) H1 H2 P1 P2 [L1 L2]. split; unfold is_lib.
+  - change (flook ARRLEN st' = Some (VFun (FLib ARRLEN))). rewrite K; [exact L1|exact H1|right; exact P1].
+  - change (flook ARRGET st' = Some (VFun (FLib ARRGET))). rewrite K; [exact L2|exact H2|right; exact P2].
 Qed.
 
-Lemma OK_step s st A E st' : OK s st -> step_ok A E st st' -> incl A (assigned s) -> incl E (uexprs s) -> OK s st'.
+Lemma OK_step s st A st' : OK s st -> step_ok A st st' -> incl A (assigned s) -> OK s st'.
 Proof.
-  intros (T & N & L & R) Hs HA HE. split; [exact T|split; [exact N|]]. apply no_shadow_iff in N. destruct N as [N1 N2]. split.
-  - eapply libok_step; [exact Hs| | | |exact L].
+  intros (T & N & L & R) Hs HA. split; [exact T|split; [exact N|]]. apply no_shadow_iff in N. destruct N as [N1 N2]. split.
+  - eapply libok_step; [exact Hs| | | | |exact L].
     + intros H. apply N1. apply HA. exact H.
     + intros H. apply N2. apply HA. exact H.
-    + intros e He. destruct (R e (HE _ He)) as (K1 & K2 & _). split; assumption.
+    + apply R. cbn; auto.
+    + apply R. cbn; auto.
   - destruct Hs as (F & _). rewrite F. exact R.
 Qed.
 
-Lemma OK_sub s s' st : OK s st -> no_temp_assign s' = true -> incl (assigned s') (assigned s) -> incl (uexprs s') (uexprs s) ->
-  incl (utemps s') (utemps s) -> OK s' st.
+Lemma OK_sub s s' st : OK s st -> no_temp_assign s' = true -> incl (assigned s') (assigned s) -> incl (utemps s') (utemps s) -> OK s' st.
 Proof.
-  intros (T & N & L & R) T' HA HE HT. split; [exact T'|split; [|split; [exact L|exact (Res_sub _ _ _ HE HT R)]]].
-  apply no_shadow_iff in N. apply no_shadow_iff. destruct N as [N1 N2]. split; intros H; [apply N1|apply N2]; apply HA; exact H.
+  intros (T & N & L & R) T' HA HT. split; [exact T'|split; [|split; [exact L|]]].
+  - apply no_shadow_iff in N. apply no_shadow_iff. destruct N as [N1 N2]. split; intros H; [apply N1|apply N2]; apply HA; exact H.
+  - intros y Hy. apply R. unfold protected in *. destruct (fscope st); [exact Hy|].
+    destruct Hy as [<-|[<-|Hy]]; [cbn; auto|cbn; auto|]. right. right. apply HT. exact Hy.
 Qed.
 
-Lemma TK_step vals len idx E A E' st st' : step_ok A E' st st' -> TK vals len idx E st -> TK vals len idx E st'.
+Lemma TK_step vals len idx A st st' : step_ok A st st' -> TK vals len idx st -> TK vals len idx st'.
 Proof. intros (_ & Lm & _) H y Hy. destruct (H y Hy) as [Hl|Hk]; [left; apply Lm; exact Hl|right; exact Hk]. Qed.
 
-Lemma inv3_step A E vals len idx arr m i st st' : step_ok A E st st' -> ~ In vals A -> ~ In len A -> ~ In idx A ->
-  TK vals len idx E st -> Inv3 vals len idx arr m i st -> Inv3 vals len idx arr m i st'.
+Lemma inv3_step A vals len idx arr m i st st' : step_ok A st st' -> ~ In vals A -> ~ In len A -> ~ In idx A ->
+  TK vals len idx st -> Inv3 vals len idx arr m i st -> Inv3 vals len idx arr m i st'.
 Proof.
   intros (_ & _ & K) Hv Hl Hi Hk (Iv & Il & Ii). repeat split.
   - rewrite (slook_flook vals st st'); [exact Iv|]. apply K; [exact Hv|apply Hk; cbn; auto].
@@ -325,53 +318,52 @@ Section OneLoop.
 Variables (vals len idx x : str) (e : expr) (body : unistmt).
 Local Notation F := (NFor vals len idx x e body).
 
-Lemma TK_intro st : OK F st -> (fscope st = true -> lbound vals st /\ lbound len st /\ lbound idx st) -> TK vals len idx (uexprs body) st.
+Lemma TK_intro st : OK F st -> (fscope st = true -> lbound vals st /\ lbound len st /\ lbound idx st) -> TK vals len idx st.
 Proof.
   intros (_ & _ & _ & R) Hl y Hy. destruct (fscope st) eqn:Ef.
   - left. destruct (Hl eq_refl) as (A & B & C). destruct Hy as [<-|[<-|[<-|[]]]]; assumption.
-  - right. intros e' He'. destruct (R e') as (_ & _ & K); [cbn; auto|]. apply K; [reflexivity|].
-    cbn [utemps]. destruct Hy as [<-|[<-|[<-|[]]]]; cbn; auto.
+  - right. apply R. unfold protected. destruct Hy as [<-|[<-|[<-|[]]]]; cbn; auto 10.
 Qed.
 
 (* the state in which the body of an iteration starts *)
-Lemma iter_facts arr m i st v st_g : OK F st -> TK vals len idx (uexprs body) st -> Inv3 vals len idx arr m i st ->
+Lemma iter_facts arr m i st v st_g : OK F st -> TK vals len idx st -> Inv3 vals len idx arr m i st ->
   IterX arr i st v st_g ->
-  OK F (assign' x v st_g) /\ TK vals len idx (uexprs body) (assign' x v st_g) /\ Inv3 vals len idx arr m i (assign' x v st_g).
+  OK F (assign' x v st_g) /\ TK vals len idx (assign' x v st_g) /\ Inv3 vals len idx arr m i (assign' x v st_g).
 Proof.
   intros HO HT HI Hit.
-  assert (Hs : step_ok [x] (uexprs body) st (assign' x v st_g)).
+  assert (Hs : step_ok [x] st (assign' x v st_g)).
   { eapply step_trans; [eapply step_iter; exact Hit|apply step_assign; cbn; auto]. }
   destruct HO as (T & HO'). pose proof (no_temp_for _ _ _ _ _ _ T) as (_ & Hx & _).
   split; [|split].
-  - eapply OK_step; [exact (conj T HO')|exact Hs|incl_tac|incl_tac].
+  - eapply OK_step; [exact (conj T HO')|exact Hs|incl_tac].
   - eapply TK_step; [exact Hs|exact HT].
   - eapply inv3_step; [exact Hs| | | |exact HT|exact HI];
       intros [E|[]]; apply Hx; subst x; cbn; auto.
 Qed.
 
 (* the state in which it ends *)
-Lemma body_facts chk arr m i st_a ob st_b : OK F st_a -> TK vals len idx (uexprs body) st_a -> Inv3 vals len idx arr m i st_a ->
-  XExec chk body st_a ob st_b ->
-  OK F st_b /\ TK vals len idx (uexprs body) st_b /\ Inv3 vals len idx arr m i st_b.
+Lemma body_facts chk arr m i st_a ob st_b : OK F st_a -> TK vals len idx st_a -> Inv3 vals len idx arr m i st_a ->
+  XExec EvK chk body st_a ob st_b ->
+  OK F st_b /\ TK vals len idx st_b /\ Inv3 vals len idx arr m i st_b.
 Proof.
   intros HO HT HI Hb. pose proof (frame_exec _ _ _ _ _ Hb) as Hs.
   destruct HO as (T & HO'). pose proof (no_temp_for _ _ _ _ _ _ T) as (_ & _ & Hv & Hl & Hi & _).
   split; [|split].
-  - eapply OK_step; [exact (conj T HO')|exact Hs|incl_tac|incl_tac].
+  - eapply OK_step; [exact (conj T HO')|exact Hs|incl_tac].
   - eapply TK_step; [exact Hs|exact HT].
   - eapply inv3_step; [exact Hs|exact Hv|exact Hl|exact Hi|exact HT|exact HI].
 Qed.
 
 (* the increment *)
-Lemma next_facts arr m i st_b : OK F st_b -> TK vals len idx (uexprs body) st_b -> Inv3 vals len idx arr m i st_b ->
-  OK F (assign' idx (int_v (S i)) st_b) /\ TK vals len idx (uexprs body) (assign' idx (int_v (S i)) st_b) /\
+Lemma next_facts arr m i st_b : OK F st_b -> TK vals len idx st_b -> Inv3 vals len idx arr m i st_b ->
+  OK F (assign' idx (int_v (S i)) st_b) /\ TK vals len idx (assign' idx (int_v (S i)) st_b) /\
   Inv3 vals len idx arr m (S i) (assign' idx (int_v (S i)) st_b).
 Proof.
   intros HO HT HI.
-  assert (Hs : step_ok [idx] (@nil expr) st_b (assign' idx (int_v (S i)) st_b)) by (apply step_assign; cbn; auto).
+  assert (Hs : step_ok [idx] st_b (assign' idx (int_v (S i)) st_b)) by (apply step_assign; cbn; auto).
   destruct HO as (T & HO'). pose proof (no_temp_for _ _ _ _ _ _ T) as (Hn & _).
   split; [|split].
-  - eapply OK_step; [exact (conj T HO')|exact Hs|incl_tac|incl_tac].
+  - eapply OK_step; [exact (conj T HO')|exact Hs|incl_tac].
   - eapply TK_step; [exact Hs|exact HT].
   - apply Inv3_next; assumption.
 Qed.
@@ -379,24 +371,24 @@ Qed.
 Lemma OK_body st : OK F st -> OK body st.
 Proof.
   intros HO. pose proof HO as (T & _). pose proof (no_temp_for _ _ _ _ _ _ T) as (_ & _ & _ & _ & _ & Tb).
-  eapply OK_sub; [exact HO|exact Tb|incl_tac|incl_tac|incl_tac].
+  eapply OK_sub; [exact HO|exact Tb|incl_tac|incl_tac].
 Qed.
 
 (* the header: values, then (array case) length and index *)
-Lemma head_facts loc w o w1 v : OK F (loc, w) -> Ev e loc w o w1 -> OK F (assign' vals v (loc, w1)).
+Lemma head_facts loc w o w1 v : OK F (loc, w) -> EvK e loc w o w1 -> OK F (assign' vals v (loc, w1)).
 Proof.
-  intros HO He. eapply OK_step; [exact HO| |apply incl_refl|apply incl_refl].
-  eapply step_trans; [eapply step_ev; [exact He|cbn; auto]|apply step_assign; cbn; auto].
+  intros HO He. eapply OK_step; [exact HO| |apply incl_refl].
+  eapply step_trans; [eapply step_ev; exact He|apply step_assign; cbn; auto].
 Qed.
 
-Lemma head3_facts loc w o w1 l m : OK F (loc, w) -> Ev e loc w o w1 ->
+Lemma head3_facts loc w o w1 l m : OK F (loc, w) -> EvK e loc w o w1 ->
   let st3 := assign' idx (int_v 0) (assign' len (int_v m) (assign' vals (VArr l) (loc, w1))) in
-  OK F st3 /\ TK vals len idx (uexprs body) st3 /\ Inv3 vals len idx l m 0 st3.
+  OK F st3 /\ TK vals len idx st3 /\ Inv3 vals len idx l m 0 st3.
 Proof.
   intros HO He st3. pose proof HO as (T & _). pose proof (no_temp_for _ _ _ _ _ _ T) as (Hn & _).
   assert (HO1 := head_facts _ _ _ _ (VArr l) HO He).
   assert (HO3 : OK F st3).
-  { eapply OK_step; [exact HO1| |apply incl_refl|apply incl_refl].
+  { eapply OK_step; [exact HO1| |apply incl_refl].
     eapply step_trans; [apply step_assign with (x := len); cbn; auto|apply step_assign; cbn; auto]. }
   split; [exact HO3|split; [|apply Inv3_init; exact Hn]].
   apply TK_intro; [exact HO3|]. intros Hf. unfold st3 in *. rewrite !fscope_assign in Hf. repeat split.
@@ -406,20 +398,22 @@ Proof.
 Qed.
 End OneLoop.
 
-Definition PA (s : unistmt) (st : sstate) (o : sout) (st' : sstate) : Prop := OK s st -> XExec true s st o st'.
+Definition PA (s : unistmt) (st : sstate) (o : sout) (st' : sstate) : Prop := OK s st -> XExec Ev true s st o st'.
 Definition PLp (vals len idx x : str) (body : unistmt) (arr m i : nat) (st : sstate) (o : sout) (st' : sstate) : Prop :=
-  forall e, OK (NFor vals len idx x e body) st -> TK vals len idx (uexprs body) st -> Inv3 vals len idx arr m i st ->
-    XLoop true vals len idx x body arr m i st o st'.
+  forall e, OK (NFor vals len idx x e body) st -> TK vals len idx st -> Inv3 vals len idx arr m i st ->
+    XLoop Ev true vals len idx x body arr m i st o st'.
 
 Ltac tok H := let T := fresh "T" in pose proof H as (T & _); cbn [no_temp_assign] in T; rewrite ?andb_true_iff in T.
-Ltac sub_ok H := eapply OK_sub; [exact H|tauto|incl_tac|incl_tac|incl_tac].
+Ltac sub_ok H := eapply OK_sub; [exact H|tauto|incl_tac|incl_tac].
 (* OK of the same statement after evaluating one of its expressions *)
 Ltac ev_ok H He := match type of H with OK ?s _ =>
-  eapply (OK_step s _ (@nil str) (uexprs s)); [exact H|eapply step_ev; [exact He|cbn; auto]|apply incl_nil_l|apply incl_refl] end.
+  eapply (OK_step s _ (@nil str)); [exact H|eapply step_ev; exact He|apply incl_nil_l] end.
+Ltac leaf_rule := intros; econstructor; try eassumption;
+  match goal with H : C01side.EvQ _ _ _ _ _ _ _ _ _ _ _ |- _ => exact (proj1 H) end.
 
 Theorem side_conditions_automatic_both :
-  (forall s st o st', XExec false s st o st' -> PA s st o st') /\
-  (forall vals len idx x body arr m i st o st', XLoop false vals len idx x body arr m i st o st' -> PLp vals len idx x body arr m i st o st').
+  (forall s st o st', XExec EvK false s st o st' -> PA s st o st') /\
+  (forall vals len idx x body arr m i st o st', XLoop EvK false vals len idx x body arr m i st o st' -> PLp vals len idx x body arr m i st o st').
 Proof.
   apply X_both; unfold PA, PLp.
   - intros; constructor.
@@ -427,49 +421,49 @@ Proof.
     assert (HOa : OK a st) by sub_ok HO.
     eapply Y_SeqN; [apply IHa; exact HOa|apply IHb].
     assert (HO1 : OK (NSeq a b) st1).
-    { eapply OK_step; [exact HO|exact (frame_exec _ _ _ _ _ Ha)|incl_tac|incl_tac]. }
+    { eapply OK_step; [exact HO|exact (frame_exec _ _ _ _ _ Ha)|incl_tac]. }
     sub_ok HO1.
   - intros a b st o st1 Ha IHa Hno HO. tok HO. apply Y_SeqA; [apply IHa; sub_ok HO|exact Hno].
-  - intros; apply Y_Assign; assumption.
-  - intros; apply Y_AssignStop; assumption.
-  - intros; eapply Y_Expr; eassumption.
-  - intros; apply Y_ExprStop; assumption.
-  - intros; apply Y_Return; assumption.
+  - leaf_rule.
+  - leaf_rule.
+  - leaf_rule.
+  - leaf_rule.
+  - leaf_rule.
   - intros; constructor.
   - intros; constructor.
   - intros; constructor.
   - intros c a rest loc w v w1 o st2 He Ht Ha IHa HO. tok HO.
     assert (HO1 : OK (NIf c a rest) (loc, w1)) by ev_ok HO He.
-    eapply Y_IfT; [exact He|exact Ht|apply IHa; sub_ok HO1].
+    eapply Y_IfT; [exact (proj1 He)|exact Ht|apply IHa; sub_ok HO1].
   - intros c a rest loc w v w1 o st2 He Ht Hr IHr HO. tok HO.
     assert (HO1 : OK (NIf c a rest) (loc, w1)) by ev_ok HO He.
-    eapply Y_IfF; [exact He|exact Ht|apply IHr; sub_ok HO1].
-  - intros; apply Y_IfStop; assumption.
+    eapply Y_IfF; [exact (proj1 He)|exact Ht|apply IHr; sub_ok HO1].
+  - leaf_rule.
   - intros b st o st1 Hb IHb HO. tok HO. apply Y_Else. apply IHb. sub_ok HO.
-  - intros; eapply Y_WhileF; eassumption.
-  - intros; apply Y_WhileStop; assumption.
+  - leaf_rule.
+  - leaf_rule.
   - intros c b loc w v w1 o st2 o3 st3 He Ht Hb IHb Ho Hw IHw HO. tok HO.
     assert (HO1 : OK (NWhile c b) (loc, w1)) by ev_ok HO He.
     assert (HO2 : OK (NWhile c b) st2).
-    { eapply OK_step; [exact HO1|exact (frame_exec _ _ _ _ _ Hb)|incl_tac|incl_tac]. }
-    eapply Y_WhileT; [exact He|exact Ht|apply IHb; sub_ok HO1|exact Ho|apply IHw; exact HO2].
+    { eapply OK_step; [exact HO1|exact (frame_exec _ _ _ _ _ Hb)|incl_tac]. }
+    eapply Y_WhileT; [exact (proj1 He)|exact Ht|apply IHb; sub_ok HO1|exact Ho|apply IHw; exact HO2].
   - intros c b loc w v w1 st2 He Ht Hb IHb HO. tok HO.
     assert (HO1 : OK (NWhile c b) (loc, w1)) by ev_ok HO He.
-    eapply Y_WhileB; [exact He|exact Ht|apply IHb; sub_ok HO1].
+    eapply Y_WhileB; [exact (proj1 He)|exact Ht|apply IHb; sub_ok HO1].
   - intros c b loc w v w1 o st2 He Ht Hb IHb HO. tok HO.
     assert (HO1 : OK (NWhile c b) (loc, w1)) by ev_ok HO He.
-    eapply Y_WhileS; [exact He|exact Ht|apply IHb; sub_ok HO1].
-  - intros; apply Y_ForStop; assumption.
+    eapply Y_WhileS; [exact (proj1 He)|exact Ht|apply IHb; sub_ok HO1].
+  - leaf_rule.
   - (* not an array *)
     intros vals len idx x e body loc w v w1 He Hna _ HO.
-    apply Y_ForNotArr; [exact He|exact Hna|]. intros _.
+    apply Y_ForNotArr; [exact (proj1 He)|exact Hna|]. intros _.
     destruct (head_facts _ _ _ _ _ _ _ _ _ _ v HO He) as (_ & _ & [L _] & _). exact L.
   - intros vals len idx x e body loc w l w1 He Harr _ HO.
-    apply Y_ForEmpty; [exact He|exact Harr|]. intros _.
+    apply Y_ForEmpty; [exact (proj1 He)|exact Harr|]. intros _.
     destruct (head_facts _ _ _ _ _ _ _ _ _ _ (VArr l) HO He) as (_ & _ & [L _] & _). exact L.
   - intros vals len idx x e body loc w l w1 elems o st' He Harr Hne _ Hloop IH HO.
     destruct (head3_facts _ _ _ _ _ _ _ _ _ _ l (length elems) HO He) as (HO3 & HT3 & HI3).
-    eapply Y_ForLoop; [exact He|exact Harr|exact Hne| |exact (IH e HO3 HT3 HI3)]. intros _.
+    eapply Y_ForLoop; [exact (proj1 He)|exact Harr|exact Hne| |exact (IH e HO3 HT3 HI3)]. intros _.
     destruct (head_facts _ _ _ _ _ _ _ _ _ _ (VArr l) HO He) as (_ & _ & [L _] & _). exact L.
   - (* loop: stop *)
     intros vals len idx x body arr m i st v st_g out st_b _ Hit Hb IHb e HO HT HI.
@@ -491,15 +485,32 @@ Proof.
                     |intros _; exact HIb|exact Hge].
 Qed.
 
-(* THE CRITERION: under the syntactic conditions, the start condition and the residual premise on expressions, the reading
-   without side conditions is the reading with them *)
-Theorem side_conditions_automatic : forall s st o st', XExec false s st o st' ->
-  no_temp_assign s = true -> no_shadow s = true -> LibOK st -> Res (fscope st) s -> XExec true s st o st'.
-Proof. intros s st o st' H T N L R. exact (proj1 side_conditions_automatic_both s st o st' H (conj T (conj N (conj L R)))). Qed.
+End Crit.
 
-(* the converse is XExec_weaken_both of Proofs/C01side.v: the two readings coincide on such programs *)
+Section Crit2.
+Variable cfg : config.
+Variable lib : caller -> str -> list value -> world -> lres * world.
+Variable url_rel : str -> str -> str.
+Variable lint_lines : script -> list str.
+Variable um : umode.
+Variables len_msg get_msg : str.
+Notation Ev := (C01.Ev cfg lib url_rel lint_lines um).
+Notation XExec := (XExec cfg len_msg get_msg).
 
-(* an expression without calls does not touch the world: the residual premise holds for it *)
+(* THE CRITERION: a run of the reading WITHOUT side conditions whose expression evaluations leave the protected globals alone is,
+   under the syntactic conditions and the start condition, a run of the reading WITH them *)
+Theorem side_conditions_automatic : forall s st o st',
+  XExec (EvQ cfg lib url_rel lint_lines um (Keeps (protected (fscope st) s))) false s st o st' ->
+  no_temp_assign s = true -> no_shadow s = true -> LibOK st -> XExec Ev true s st o st'.
+Proof.
+  intros s st o st' H T N L.
+  exact (proj1 (side_conditions_automatic_both cfg lib url_rel lint_lines um len_msg get_msg _) s st o st' H
+           (conj T (conj N (conj L (incl_refl _))))).
+Qed.
+
+(* the converse is XExec_weaken_both / XExec_mono_both of Proofs/C01side.v: the two readings coincide on such runs *)
+
+(* an expression without calls does not touch the world: every evaluation of it keeps every global *)
 Fixpoint call_free (e : expr) : bool :=
   match e with
   | ENum _ | EStr _ | EVar _ => true
@@ -533,7 +544,27 @@ Proof.
   - eapply IH; eassumption.
 Qed.
 
-Lemma call_free_keeps y e : call_free e = true -> EvKeep y e.
-Proof. intros Hc loc w o w1 (f & He & Hn). rewrite (call_free_same f e loc false w o w1 Hc He Hn). reflexivity. Qed.
+Lemma call_free_keeps P e loc w o w1 : call_free e = true -> Ev e loc w o w1 -> Keeps P e loc w o w1.
+Proof. intros Hc (f & He & Hn) y _. rewrite (call_free_same f e loc false w o w1 Hc He Hn). reflexivity. Qed.
 
-End Crit.
+
+End Crit2.
+
+(* ---------------------------------------------------------------- a decision procedure for [Keeps] (for running examples) *)
+Definition value_eq_dec : forall a b : value, {a = b} + {a <> b}.
+Proof. repeat decide equality. Defined.
+
+Definition keepsb (P : list str) : expr -> option env -> world -> outcome -> world -> bool :=
+  fun _ _ w _ w1 =>
+    forallb (fun y => match env_get y (w_globals w1), env_get y (w_globals w) with
+                      | Some a, Some b => if value_eq_dec a b then true else false
+                      | None, None => true
+                      | _, _ => false
+                      end) P.
+
+Lemma keepsb_sound P e loc w o w1 : keepsb P e loc w o w1 = true -> Keeps P e loc w o w1.
+Proof.
+  unfold keepsb, Keeps. rewrite forallb_forall. intros H y Hy. specialize (H y Hy).
+  destruct (env_get y (w_globals w1)) as [a|], (env_get y (w_globals w)) as [b|]; try discriminate H; [|reflexivity].
+  destruct (value_eq_dec a b) as [->|]; [reflexivity|discriminate H].
+Qed.
